@@ -159,13 +159,20 @@ def check(pid, tier, seed, replay=None):
             rp = json.load(open(replay))
             scripts = [rp["script"]]
         else:
-            S, mo = (4, 7) if thorough else (3, 6)
-            r = tlc(mdir, "LoggerTree", consts(S, 3, mo, True) + "SPECIFICATION Spec\nVIEW View\nCHECK_DEADLOCK FALSE\nINVARIANT Independent\n", workers=NCPU, timeout=2400, heap="24g")
-            if r.violated:
-                log("%s: model-level Independent violated (lead): %s" % (pid, r.out[-1200:]))
-            elif not r.completed:
-                raise Inconclusive("LoggerTree incomplete: %s" % r.out[-1200:])
-            stats = {"S": S, "MaxOps": mo, "distinct": r.distinct, "generated": r.generated, "independent_holds_on_model": not r.violated}
+            # measured with the hook-slice layer (16 cores): (3,6) 25 s; (4,6) 17.2 M distinct states 150 s; (3,7) 16.8 M 120 s;
+            # (4,7) 190 M states 27 min and (3,8) are not run
+            stats = {"distinct": 0, "generated": 0, "independent_holds_on_model": True, "configs": []}
+            for S, mo in ([(4, 6), (3, 7)] if thorough else [(3, 6)]):
+                r = tlc(mdir, "LoggerTree", consts(S, 3, mo, True) + "SPECIFICATION Spec\nVIEW View\nCHECK_DEADLOCK FALSE\nINVARIANT Independent\n", workers=NCPU, timeout=2400, heap="24g",
+                        cfg_name="lt_%d%d.cfg" % (S, mo))
+                if r.violated:
+                    log("%s: model-level Independent violated (lead): %s" % (pid, r.out[-1200:]))
+                    stats["independent_holds_on_model"] = False
+                elif not r.completed:
+                    raise Inconclusive("LoggerTree incomplete: %s" % r.out[-1200:])
+                stats["distinct"] += r.distinct
+                stats["generated"] += r.generated
+                stats["configs"].append({"S": S, "MaxOps": mo, "distinct": r.distinct, "generated": r.generated})
             log("%s: model checked %.0fs" % (pid, time.time() - t0))
             ex = tlc(mdir, "LoggerTree", consts(3, 3, 4, True) + "SPECIFICATION Spec\nVIEW View\nCHECK_DEADLOCK FALSE\nINVARIANT EmitProg\n", workers=4, timeout=600, cfg_name="lt_ex.cfg")
             scripts = progs_of(ex, 3, "cover")
